@@ -10,6 +10,13 @@ PROPS = {
         "assumptions": ["default policy = onet.RequirePublicIP as wired in NewPacketHandler / defaultDialer"],
         "explanation": "exact characterisation theorem over all 2^32+2^128 addresses (both directions) against the CIDR list and guard structure regenerated from net/private_net.go; correspondence: real RequirePublicIP/IsPrivateAddress/net.IP predicates on all block boundaries in 4-byte, mapped and native form + random",
     },
+    "C20": {
+        "gen_keys": ["labels", "ipinfo"],
+        "trusted_base": ["net.SplitHostPort / net.ParseIP decide the parse class of an address string (stdlib; the harness supplies strings of known class)",
+                         "the translator's classification of label-value expressions by syntactic form (extractor/labels.go rules)"],
+        "assumptions": ["label values flow only through WithLabelValues / addIfNonZero / CurryWith call sites of prometheus/metrics.go and cmd/outline-ss-server/metrics.go"],
+        "explanation": "label table + exhaustiveness + db-consultation theorems over all addresses and database behaviours; label schema closed (computed over Gen.Labels regenerated from source); noninterference theorem for tunnel time under injective location-preserving IP renaming; correspondence: GetIPInfoFromAddr/FromIP with a recording DB, and exposition scan for address material",
+    },
     "C17": {
         "gen_keys": ["\0"],
         "trusted_base": ["prometheus/client_golang CounterVec.Add sums float64 exactly for whole seconds; Go map iteration order is irrelevant (model uses an association list)",
